@@ -59,6 +59,7 @@ type Contract struct {
 	Modifies    []string
 	ModAll      bool // modifies *
 	Allocates   bool
+	AllocPlain  bool // allocates no *Scope and no *graphHolder (the objects the global invariants range over)
 	MayPanic    bool
 	Trusted     bool
 	NoInline    bool
@@ -135,6 +136,7 @@ type SpecFile struct {
 	LocSets   map[string][]string
 	TypeInvs  []*TypeInv
 	Scans     []*ScanDecl
+	Sweeps    []string
 	Ghosts    []string // "Struct.field sort"
 	GhostVars []string // "$name sort"
 }
@@ -143,7 +145,7 @@ var headerRe = regexp.MustCompile(`^func\s*(\(([^)]*)\))?\s*([A-Za-z0-9_./$:\[\]
 
 var clauseKw = map[string]bool{"requires": true, "ensures": true, "modifies": true, "allocates": true, "maypanic": true,
 	"trusted": true, "onpanic": true, "loop": true, "site": true, "let": true, "oldlet": true, "noinline": true, "ghostset": true, "deferloop": true}
-var topKw = map[string]bool{"opaque": true, "typeinv": true, "locset": true, "func": true, "pure": true, "ufunc": true, "axiom": true, "lemma": true, "ghost": true, "package": true, "scan": true}
+var topKw = map[string]bool{"opaque": true, "typeinv": true, "locset": true, "func": true, "pure": true, "ufunc": true, "axiom": true, "lemma": true, "ghost": true, "package": true, "scan": true, "sweep": true}
 
 // readSpecLines collects the //@ lines of a file, joining continuation lines.
 func readSpecLines(path string) (pkg string, lines []string, where []string, err error) {
@@ -315,6 +317,13 @@ func parseSpecFile(path string) (*SpecFile, error) {
 				sf.Lemmas = append(sf.Lemmas, cl)
 			}
 			cur = nil
+		case "sweep":
+			for _, f := range strings.Split(rest, ",") {
+				if f = strings.TrimSpace(f); f != "" {
+					sf.Sweeps = append(sf.Sweeps, f)
+				}
+			}
+			cur = nil
 		case "scan":
 			// scan[labels] kind target <=|== fn, fn, ...
 			labels, r := parseLabels(rest)
@@ -424,6 +433,9 @@ func parseSpecFile(path string) (*SpecFile, error) {
 				}
 			case "allocates":
 				cur.Allocates = true
+				if strings.TrimSpace(rest) == "plain" {
+					cur.AllocPlain = true
+				}
 			case "maypanic":
 				cur.MayPanic = true
 			case "trusted":
